@@ -5,6 +5,14 @@
    the order, with the method and the lower flag, of the req.backend lookup chain of the
    rendered haproxy.cfg (of MatchFiles() when only the map template is run). The harness
    has already checked that they equal MatchFiles().Values() (C04/rendered-map-differs).
+   Part of the cases declare the rules as Gateway API HTTPRoutes or as Ingress resources
+   and go through the REAL converters and the whole controller pipeline.
+   OUTSIDE THE MODEL: entries with a header match (Gateway API header matches, the
+   http-header-match annotation). The code moves them to files of their own, consulted
+   first and only when the request carries the header; they do not take part in the
+   overlap logic of the other entries. A case therefore holds the calls WITHOUT header
+   match and the lookups WITHOUT header condition: what a request without the header
+   sees. Requests with the header are judged by the Go oracle only (oracleFiltered).
    A case is fine when
    - the model `rebuild_current` (hosts visited in sorted order, as the code does since
      /repo 5f31221) yields exactly the observed files (method, lower flag, ordered
